@@ -98,7 +98,28 @@ int pick_gen(Rng &r, int dtype, const Profile &pf) {
 }
 }
 
+static Plan gen_mrb_driver_plan(const Profile &pf, uint64_t seed) {
+    Plan P; P.seed = seed; P.prop = pf.prop; P.use_twr = 2; P.producers = 2;
+    Rng r = rng_derive(seed, "mrbdriver");
+    static const uint32_t caps[] = {16, 17, 24, 31, 32, 48, 64, 100, 128, 255, 256, 1000, 4096};
+    P.mrb_size = r.chance(0.01) ? (64u << 20) : caps[r.below(13)];
+    P.pol.kind = (int) r.below(4); static const double ps[] = {0.02, 0.1, 0.5}; P.pol.p = ps[r.below(3)]; P.pol.d = (int) r.range(1, 4); P.pol.q = (int) r.range(1, 12); P.pol.est_len = 600;
+    int n = (int) r.range(4, 120);
+    uint32_t cap = P.mrb_size > 100000 ? 5000 : P.mrb_size;
+    for (int i = 0; i < n; ++i) {
+        if (r.chance(0.55)) {
+            Op o; o.kind = OP_USER; o.prod = 0; o.gs = r.next();
+            int c = (int) r.below(8);
+            o.n = c == 0 ? 0 : c == 1 ? 1 : c == 2 ? (int64_t) cap - r.range(0, 12) : c == 3 ? (int64_t) cap + r.range(1, 3) : c == 4 ? r.range(0, cap / 2) : c == 5 ? r.range(0, cap) : r.range(0, std::max<int64_t>(1, cap / 4));
+            if (o.n < 0) o.n = 0;
+            P.ops.push_back(o);
+        } else { Op o; o.kind = OP_FLUSH; o.prod = 1; o.en = r.chance(0.7); P.ops.push_back(o); }
+    }
+    return P;
+}
+
 Plan gen_plan(const Profile &pf, uint64_t seed) {
+    if (pf.prop == "C08" && (seed & 1)) return gen_mrb_driver_plan(pf, seed);
     Plan P; P.seed = seed; P.prop = pf.prop;
     Rng r = rng_derive(seed, "plan");
     // ---- knobs
